@@ -88,7 +88,7 @@ def body(ctx, case):
         ctx.notes["max_nodes"] = max(ctx.notes.get("max_nodes", 0), nodes)
     except Exception:  # pylint: disable=broad-except
         pass                                     # internal layout is not part of the property
-    for q in queries:
+    for k, q in enumerate(queries):
         want = {i for i, b in boxes if overlaps(b, q)}
         qclasses = set(classes)
         if q[0] == q[2] and q[1] == q[3]:
@@ -99,8 +99,9 @@ def body(ctx, case):
             qclasses.add("empty_expected")
         if want and not any(strictly_overlaps(b, q) for i, b in boxes if i in want):
             qclasses.add("touching_only_hit")
-        one = {"boxes": case["boxes"], "queries": [list(q)], "tags": case.get("tags", [])}
-        ctx.record(one, qclasses, nontrivial=n >= 2 and bool(want))
+        # a failure is reported with every query asked of this index so far (an index may remember earlier queries)
+        one = {"boxes": case["boxes"], "queries": [list(x) for x in queries[:k + 1]], "tags": case.get("tags", [])}
+        ctx.record({"boxes": case["boxes"], "queries": [list(q)]}, qclasses, nontrivial=n >= 2 and bool(want))
         try:
             got, _ = sut.call_budget(index.intersection, (q,), line_budget=LINE_BUDGET)
         except BudgetExceeded:
